@@ -355,6 +355,17 @@ def r6(ctx: Ctx) -> None:
                    "constraint systems (a movable hard module becomes fixed, or its branches are misplaced)", lineno=t.lineno)
     c = canon_function(fx, ctx.model)
     cd = deref(c, single_defs(c))
+    truthy = []
+    for cnd in atoms_of(c, lambda x: x[0] == "if"):
+        conj0 = set(cnd[1][1]) if cnd[1][0] in ("and", "or") else {cnd[1]}
+        for t in conj0:
+            u = t[1] if t[0] == "not" else t
+            if u[0] == "c" and u[1] == ("g", "optional_get"):
+                truthy.append(u)
+    ctx.site(fx.where, "table values are tested with 'is not None', never by truthiness", truthiness_tests=len(truthy))
+    for u in truthy:
+        ctx.report(fx.where, f"truthiness-test {show(u)}", "Model.fix tests a coordinate/offset by truthiness: the value 0 (a branch centred on its trunk, a rectangle at the origin) "
+                   "is treated as absent", lineno=fx.node.lineno)
     loops = [lp for lp in c if lp[0] == "for"]
     ctx.require(len(loops) == 1, "Model.fix: loop over the rectangles not found")
     i = loops[0][1]
@@ -369,7 +380,9 @@ def r6(ctx: Ctx) -> None:
     for a in adds:
         cond = deref(a[1], dfs)
         conj = set(cond[1]) if cond[0] == "and" else {cond}
-        if (trunk_free in conj or mk_not(trunk_fixed) in conj) and mk_not(mk_eq(i, k_num(0))) in conj:
+        xget = ("c", ("g", "optional_get"), (xl, i), ())
+        allowed = {trunk_free, mk_not(trunk_fixed), mk_not(mk_eq(i, k_num(0))), ("cmp", "isnot", xget, K_NONE)}
+        if (trunk_free in conj or mk_not(trunk_fixed) in conj) and mk_not(mk_eq(i, k_num(0))) in conj and conj <= allowed:
             ys = [y for y in a[2] if y[0] == "aug" and contains(y[3], ("s", ("a", ("s", ("a", S_, "M"), ("p", 0)), "y"), k_num(0)))]
             ok = len(ys) == 1
     if not ok:
